@@ -670,23 +670,30 @@ Theorem C05_json_provider_guard_only_for_several_passes_refuted : forall fuel li
 Proof. exact jd_passes_guardless_never_ends. Qed.
 Print Assumptions C05_json_provider_guard_only_for_several_passes_refuted.
 
-(* "succeeds only if every pool ran out of ammo": data with ammo on a source that reports its end on a read of its own
-   (pend = 0) -- the guard never refuses a rewind, `passes` passes hand out passes * a ammo, then nil.  This is the
-   PARTIAL form, under the explicit guard pend = 0 ... *)
-Theorem C05_json_provider_passes_counted_partial : forall v a passes n pc d db fuel,
+(* "succeeds only if every pool ran out of ammo": data with ammo on ANY source that can be sought -- one that reports its
+   end on a read of its own (pend = 0) as well as one that hands its last data out together with io.EOF (pend up to a):
+   the guard never refuses a rewind, `passes` passes hand out passes * a ammo, then nil (after repair PENDING-COMMIT) *)
+Theorem C05_json_provider_passes_counted : forall a pend passes n pc d db fuel,
+  0 < a -> 0 < n -> pc + n = passes -> db <= d -> n <= fuel ->
+  jd_passes fuel jd_current passes 0 a pend true pc d db = (JdNil, d + n * a).
+Proof. intros a pend passes n pc d db fuel. apply jd_passes_counts. left. reflexivity. Qed.
+Print Assumptions C05_json_provider_passes_counted.
+
+(* whatever the guard's Read does, sources that report their end on a read of their own are read passes times *)
+Theorem C05_json_provider_passes_counted_end_on_own_read : forall v a passes n pc d db fuel,
   0 < a -> 0 < n -> pc + n = passes -> db <= d -> n <= fuel ->
   jd_passes fuel v passes 0 a 0 true pc d db = (JdNil, d + n * a).
-Proof. exact jd_passes_counts. Qed.
-Print Assumptions C05_json_provider_passes_counted_partial.
+Proof. intros v a passes n pc d db fuel. apply jd_passes_counts. right. reflexivity. Qed.
+Print Assumptions C05_json_provider_passes_counted_end_on_own_read.
 
-(* ... the full statement (any source that can be sought) is REFUTED: a source that hands all its data out in one read
-   together with io.EOF (pend = a) is read ONCE whatever passes says (2, 3, ..., 0 = unlimited) -- the run "succeeds"
-   having shot a instead of passes * a ammo (known finding, not repaired: see design/C05.md) *)
-Theorem C05_json_provider_passes_counted_refuted : forall a passes fuel,
+(* sensitivity witness, the tree before the repair (the guard without a Read of its own): a source that hands all its
+   data out in one read together with io.EOF (pend = a) is read ONCE whatever passes says (2, 3, ..., 0 = unlimited) --
+   the run "succeeds" having shot a instead of passes * a ammo *)
+Theorem C05_json_provider_passes_counted_without_guard_read_refuted : forall a passes fuel,
   0 < a -> passes <> 1 ->
-  jd_passes (S fuel) jd_current passes 0 a a true 0 0 0 = (JdNil, a).
-Proof. intros a passes fuel Ha Hp. apply jd_passes_eof_with_data_one_pass; [exact Ha|exact Hp|reflexivity]. Qed.
-Print Assumptions C05_json_provider_passes_counted_refuted.
+  jd_passes (S fuel) jd_guard_without_read passes 0 a a true 0 0 0 = (JdNil, a).
+Proof. intros a passes fuel Ha Hp. apply jd_passes_eof_with_data_one_pass; [reflexivity|exact Ha|exact Hp|reflexivity]. Qed.
+Print Assumptions C05_json_provider_passes_counted_without_guard_read_refuted.
 
 (* with a limit the provider ends whatever passes says (also 0 = unlimited) *)
 Theorem C05_json_provider_limit_terminates : forall v a passes limit pend fuel pc d db,
@@ -702,7 +709,8 @@ Example C05_example_json_provider :
   jd_passes 5 jd_tree 0 0 0 0 true 0 0 0 = (JdNil, 0) /\
   jd_passes 5 jd_guard_for_several_passes 0 0 0 0 true 0 0 0 = (JdOutOfFuel, 0) /\
   jd_passes 5 jd_tree 3 0 2 0 true 0 0 0 = (JdNil, 6) /\
-  jd_passes 5 jd_tree 3 0 2 2 true 0 0 0 = (JdNil, 2) /\
+  jd_passes 5 jd_tree 3 0 2 2 true 0 0 0 = (JdNil, 6) /\
+  jd_passes 5 jd_guard_without_read 3 0 2 2 true 0 0 0 = (JdNil, 2) /\
   jd_passes 9 jd_tree 0 7 2 0 true 0 0 0 = (JdNil, 7) /\
   jd_spec_delivered true 3 0 (jd_items 2 0 JpNone) = 6.
 Proof. repeat split. Qed.
